@@ -171,6 +171,7 @@ def run(ctx):
     ctx.floor("R-C10-4", "visited_structures", len(guards), 1)
 
     visited_sets_only_grow(ctx, prog, flows)
+    lowlink_only_decreases(ctx, prog, flows)
 
     # ------------------------------------------------------------------ R-C10-3
     from graphrules import adjacency_entries_only_for_new_nodes
@@ -272,3 +273,81 @@ def bfs_expansion(ctx, prog, flows, rid, consequence):
     good7 = cal7 & {"get_successors_or_neighbors", "get_successors_or_neighbors_by_index"}
     bad7 = sorted((cal7 & {"get_neighbor_nodes", "get_predecessor_nodes", "get_predecessor_nodes_by_index", "get_predecessor_node_names", "get_predecessors_map", "get_in_edges_for_node", "get_edges_for_node"}) | (fs7 & {"predecessors", "predecessors_map", "predecessors_vec"}))
     ctx.require(bool(good7) and not bad7, rid, "expansion", "breadth_first_search expands through %s" % sorted(good7), "breadth_first_search expands a node through %s: " % (bad7 or sorted(cal7)) + consequence, loc_str(bfs.span))
+
+
+def lowlink_only_decreases(ctx, prog, flows):
+    """R-C10-10 (sibling arms).  Tarjan's lowlink of v is lowered, neighbour by neighbour, to min(lowlink[v], ..): it never
+    goes up.  In strongly_connected_components the new value is chosen by a match on how the neighbour's preorder
+    compares with v's; where one arm computes a minimum that includes the entry's own previous value, every arm must --
+    an arm that stores a plain value (say preorder[v] for a self-loop) can RAISE the lowlink again and forget what an
+    earlier neighbour contributed: a node in the middle of a cycle is then taken for the root of a component of its own."""
+    ctx.rule("R-C10-10", "in strongly_connected_components every arm that chooses the new lowlink of v computes a minimum that includes lowlink[v]")
+    b = prog.find("strong_connectivity::strongly_connected_components")
+    if not b:
+        return
+    b = b[0]
+    fl = flows.of(b)
+    n = 0
+    for t in b.calls():
+        if not (t.callee and t.callee.short.endswith("HashMap::insert") and len(t.args) >= 3 and t.args[2].place is not None and not t.args[2].place.proj):
+            continue
+        recv = {o[1] for o in fl._operand_pts(t.args[0]) if o[0] == "L"}
+        vl = t.args[2].place.local
+        # the value: a local with one definition per arm (follow one plain copy)
+        for _ in range(6):
+            ds = b.assigns_to(vl)
+            if len(ds) != 1:
+                break
+            d1 = ds[0][1]
+            rv1 = getattr(d1, "rv", None)
+            if rv1 is not None and rv1.k == "use" and rv1.ops[0].place is not None and not rv1.ops[0].place.proj:
+                vl = rv1.ops[0].place.local
+            elif rv1 is not None and rv1.k in ("ref", "copyderef") and rv1.place is not None and all(e == "*" for e in rv1.place.proj):
+                vl = rv1.place.local
+            elif getattr(d1, "k", None) == "call" and d1.callee and d1.callee.short.split("::")[-1] in ("clone", "copied", "cloned", "deref", "to_owned") and d1.args and d1.args[0].place is not None:
+                vl = d1.args[0].place.local
+            else:
+                break
+        ds = b.assigns_to(vl)
+        if len(ds) < 2:
+            continue
+        arms = []
+        for (bb, d) in ds:
+            rd = set()
+            if getattr(d, "k", None) == "call":
+                for a in d.args:
+                    rd |= set(fl._op_reads(a))
+                names0 = {d.callee.short.split("::")[-1]} if d.callee else set()
+            else:
+                for o in d.rv.ops:
+                    rd |= set(fl._op_reads(o))
+                if d.rv.place is not None:
+                    rd |= set(fl._place_reads(d.rv.place))
+                names0 = set()
+            # only what THIS arm computes: the calls between the arm's entry and its definition (same basic-block chain)
+            # what THIS arm computes: the calls of the straight-line region between the arm's entry and the definition
+            ent_ = _arm_entries(b, bb)
+            dom_ = [c for c in b.calls() if c.callee and any(b.dominates(x, c.bb) for x in ent_) and (c.bb == bb or bb in b.reachable_from(c.bb))]
+            names = names0 | {c.callee.short.split("::")[-1] for c in dom_}
+            own_prev = any(c.callee.short.split("::")[-1] == "get" and c.args and any(o[0] == "L" and o[1] in recv for o in fl._operand_pts(c.args[0])) for c in dom_)
+            arms.append((bb, d, "min" in names, own_prev))
+        if not any(a[2] for a in arms):
+            continue
+        n += 1
+        bad = [a for a in arms if not (a[2] and a[3])]
+        ctx.require(not bad, "R-C10-10", "lowlink-arms|%d" % n, "all %d arms store min(previous value, ..)" % len(arms),
+                    "an arm of strongly_connected_components stores a new lowlink that is not a minimum including the entry's previous value (%d of %d arms are): the lowlink of a node can go up again, a node inside a cycle is taken for a component root and one strong component is reported as several" % (len(arms) - len(bad), len(arms)), loc_str(bad[0][1].span) if bad else loc_str(t.span))
+    ctx.counters["lowlink_updates"] = n
+
+
+def _arm_entries(b, bb):
+    """the block that starts the arm ending in bb: walk back until the predecessor is a switch (or there are several)"""
+    x = bb
+    seen = set()
+    while x not in seen:
+        seen.add(x)
+        ps = [p for p in b.pred(x)]
+        if len(ps) != 1 or b.blocks[ps[0]].term.k == "switch":
+            break
+        x = ps[0]
+    return {x}
